@@ -174,16 +174,17 @@ LegacySerialize == SerializeWith(FALSE)
 
 ParseTerm(t, f) ==
     IF t.k = "bn" THEN t ELSE [t EXCEPT !.v = Unesc(t.v)]
+\* raw tokens that break a term when read back: string delimiters/escape introducers of the format
+LitBreaks(f) == IF f = "xml" THEN {"lt", "am"} ELSE {"qu", "bs", "lf", "cr"}
 TermBroken(t, f) ==
     \/ t.k = "iri" /\ Broken(t.v, IriMustEscape(f))
-    \/ t.k = "lit" /\ Broken(t.v, LitMustEscape(f) \ {"cr"})
+    \/ t.k = "lit" /\ Broken(t.v, LitBreaks(f))
 \* XML readers normalise a raw CR of element content to LF
 Normalise(t, f) == IF f = "xml" /\ t.k = "lit" THEN [t EXCEPT !.v = SubstClass(t.v, "cr", "lf")] ELSE t
 \* the reader may relabel blank nodes with any injective map (keep = FALSE: LegacyParse merges all labels into one)
 ParseWith(keep) ==
     /\ stage = "serialized"
     /\ IF \E t \in doc : TermBroken(t.s, fmt) \/ TermBroken(t.p, fmt) \/ TermBroken(t.o, fmt)
-          \/ (fmt # "xml" /\ t.o.k = "lit" /\ "cr" \in Classes(t.o.v))    \* a raw CR ends the N-Triples/Turtle line inside the string
        THEN res' = "parse_err" /\ out' = {}
        ELSE /\ res' = "ok"
             /\ \E labels \in [Blanks(doc) -> {"g1", "g2", "g3", "g4"}] :
